@@ -52,6 +52,7 @@ var e2FeatOpts = map[string][]string{
 	"ext3":       {"-t", "ext3"},
 	"ext2":       {"-t", "ext2"},
 	"inline":     {"-t", "ext4", "-O", "inline_data"},
+	"contig":     {"-t", "ext4", "-O", "sparse_super2,^has_journal"},
 }
 
 func e2Tree(t map[string]any) map[string]*e2Node {
@@ -78,6 +79,8 @@ func e2Tree(t map[string]any) map[string]*e2Node {
 	dir("emptydir")
 	link("l1", "a.txt")
 	switch str(t, "tree") {
+	case "huge":
+		file("huge.bin", 11, 100<<20)
 	case "htree":
 		cnt := 1200
 		if blk == 1024 {
@@ -261,7 +264,11 @@ func c20Exec(st *e2Stats) func(t map[string]any, idx int) map[string]any {
 		}
 		img := filepath.Join(work, "img")
 		args := append([]string{"-q", "-F", "-b", str(t, "blk"), "-I", str(t, "isz"), "-g", "8192", "-E", "root_owner=0:0"}, e2FeatOpts[str(t, "feat")]...)
-		args = append(args, "-d", src, img, "96M")
+		imgSize := "96M"
+		if str(t, "tree") == "huge" {
+			imgSize = "160M"
+		}
+		args = append(args, "-d", src, img, imgSize)
 		if out, err := run(work, "/usr/sbin/mke2fs", args...); err != nil {
 			ev["build"] = "mke2fs: " + trunc(out)
 			return ev
@@ -571,7 +578,7 @@ func c20Exec(st *e2Stats) func(t map[string]any, idx int) map[string]any {
 }
 
 func C20(c *core.Ctx) {
-	c.Rule = "case = one tuple of E2fs.tla = one image built by /usr/sbin/mke2fs -d (+ debugfs ea_set) and accepted by e2fsck -fn: block size 1k/2k/4k x inode size 128/256 x feature class {default, ^64bit, ^flex_bg, ^metadata_csum, ^dir_index, ^huge_file, sparse_super2, no journal, minimal, meta_bg, ext3, ext2, inline_data} x tree class {small, htree (1200/3500 entries, 255-char name), frag (6/120/500 extents with holes, 5 MiB file), sparse (head/middle/tail/all hole), links (1..1023 bytes), xattr (in-inode, block, 12 names, binary, on a directory), attrs (modes, owners to 2^32-2, times 1970..2099)}; all tuples within MaxDev deviations of the base (quick 2, thorough 4 = full product); 96 MiB, 8192 blocks per group; every node is listed, stat'ed, read in full, its link target and xattrs compared; non-trivial = the library opened the image (distinct key = tuple)"
+	c.Rule = "case = one tuple of E2fs.tla = one image built by /usr/sbin/mke2fs -d (+ debugfs ea_set) and accepted by e2fsck -fn: block size 1k/2k/4k x inode size 128/256 x feature class {default, ^64bit, ^flex_bg, ^metadata_csum, ^dir_index, ^huge_file, sparse_super2, no journal, minimal, meta_bg, ext3, ext2, inline_data} x tree class {small, htree (1200/3500 entries, 255-char name), frag (6/120/500 extents with holes, 5 MiB file), sparse (head/middle/tail/all hole), links (1..1023 bytes), xattr (in-inode, block, 12 names, binary, on a directory), attrs (modes, owners to 2^32-2, times 1970..2099), huge (one 100 MiB file in a 160 MiB image; with sparse_super2 and no journal its extents of maximal length follow one another on disk)}; all tuples within MaxDev deviations of the base (quick 2, thorough 4 = full product); 96 MiB, 8192 blocks per group; every node is listed, stat'ed, read in full, its link target and xattrs compared; non-trivial = the library opened the image (distinct key = tuple)"
 	c.Assumptions = []string{"the reference image is what was put in: e2fsck -fn accepts it; debugfs stat confirms hash-indexed directories, extent tree depth, inline data (counted in evidence extra)", "atime/ctime are not compared (mke2fs -d takes them from the host at build time)", "needs root to place owners on the host tree"}
 	maxDev := 2
 	if c.Tier == "thorough" {
